@@ -14,6 +14,80 @@ pub struct Mon {
     whitelisted: bool,
     twin_ok: Option<bool>,
     interesting: u64,
+    deploy_order_done: bool,
+}
+
+/// Deployment-order experiment (what-if, once per history): a second insurance fund is set up *before* its engine, naming the
+/// address the engine is going to have; the owner lists every market of the world (their decimals differ in some worlds)
+/// while nothing answers at that address; then the engine is deployed there. Whatever the fund accepted or refused meanwhile,
+/// every vAMM it lists afterwards must have that engine's decimals.
+fn deploy_order_experiment(w: &mut World, out: &mut Outcome) -> Option<Violation> {
+    use cw_multi_test::Executor;
+    let snap = w.snapshot();
+    let owner = cosmwasm_std::Addr::unchecked(&w.owner);
+    let res = (|| -> Option<Violation> {
+        // the address of the next contract but one (cw-multi-test numbers contracts consecutively)
+        let probe = w.app.instantiate_contract(w.fund_code, owner.clone(), &fund::InstantiateMsg { engine: "placeholder".into() }, &[], "probe", None).ok()?;
+        let k: u64 = probe.as_str().strip_prefix("contract")?.parse().ok()?;
+        let future_engine = format!("contract{}", k + 2);
+        let early_fund = w.app.instantiate_contract(w.fund_code, owner.clone(), &fund::InstantiateMsg { engine: future_engine.clone() }, &[], "early_fund", None).ok()?;
+        let mut markets: Vec<cosmwasm_std::Addr> = w.vamms.clone();
+        markets.extend(w.alien_vamm.clone());
+        let mut accepted = 0;
+        for m in &markets {
+            if w.app.execute_contract(owner.clone(), early_fund.clone(), &fund::ExecuteMsg::AddVamm { vamm: m.to_string() }, &[]).is_ok() {
+                accepted += 1;
+            }
+        }
+        let collateral = match &w.token {
+            Some(t) => t.to_string(),
+            None => crate::world::NATIVE_DENOM.to_string(),
+        };
+        let ecfg: eng::ConfigResponse = w.query(&w.engine, &eng::QueryMsg::Config {}).ok()?;
+        let engine2 = w
+            .app
+            .instantiate_contract(
+                w.engine_code,
+                owner.clone(),
+                &eng::InstantiateMsg {
+                    pauser: w.pauser.clone(),
+                    insurance_fund: early_fund.to_string(),
+                    fee_pool: w.fee_pool.to_string(),
+                    eligible_collateral: collateral,
+                    initial_margin_ratio: u(ecfg.decimals.u128() / 10),
+                    maintenance_margin_ratio: u(ecfg.decimals.u128() / 20),
+                    liquidation_fee: u(ecfg.decimals.u128() / 20),
+                },
+                &[],
+                "engine2",
+                None,
+            )
+            .ok()?;
+        if engine2.as_str() != future_engine {
+            return None;
+        }
+        out.count("deploy_order_experiments");
+        if accepted > 0 {
+            out.count("deploy_order_listings_accepted_early");
+        }
+        let e2: eng::ConfigResponse = w.query(&engine2, &eng::QueryMsg::Config {}).ok()?;
+        let listed: fund::AllVammResponse = w.query(&early_fund, &fund::QueryMsg::GetAllVamm { limit: None }).ok()?;
+        for a in listed.vamm_list {
+            let c: vamm::ConfigResponse = w.query(&a, &vamm::QueryMsg::Config {}).ok()?;
+            if c.decimals != e2.decimals {
+                return Some(
+                    Violation::new(
+                        "registered_vamm_with_other_decimals",
+                        format!("a fund set up before its engine lists vAMM {} with decimals {} although its engine (deployed afterwards at the address the fund was given) uses {}", a, c.decimals, e2.decimals),
+                    )
+                    .with("deploy_order", true),
+                );
+            }
+        }
+        None
+    })();
+    w.restore(&snap);
+    res
 }
 
 fn is_whitelisted(w: &World, who: &str) -> bool {
@@ -66,9 +140,15 @@ fn config_invariants(w: &World, o: &Obs) -> Option<Violation> {
 }
 
 impl Monitor for Mon {
-    fn before(&mut self, it: &mut Interp, act: &Act, pre: &Obs, _out: &mut Outcome) -> Option<Violation> {
+    fn before(&mut self, it: &mut Interp, act: &Act, pre: &Obs, out: &mut Outcome) -> Option<Violation> {
         self.twin_ok = None;
         self.whitelisted = false;
+        if !self.deploy_order_done {
+            self.deploy_order_done = true;
+            if let Some(v) = deploy_order_experiment(&mut it.w, out) {
+                return Some(v);
+            }
+        }
         if let Act::Open { t, v, .. } = act {
             let who = it.w.traders[*t].clone();
             self.whitelisted = is_whitelisted(&it.w, &who);
@@ -229,7 +309,7 @@ pub fn prop() -> HistProp {
         max_ops: (40, 100),
         cases: (20_000, 400_000),
         make: || Box::new(Mon::default()),
-        rule: "histories interleaving engine UpdateConfig (single fields, initial+maintenance together, values 0 / 1 / D-1 / D / D+1 / 2D / relative to the other ratio +-1), vAMM UpdateConfig (toll, spread, fluctuation limit, caps around the current exposure, TWAP interval 0/59/60/604800/604801), whitelist edits, AddVamm/RemoveVamm of matching vAMMs and of a vAMM with different decimals, with trades by whitelisted and non-whitelisted traders. After every successful position-increasing OpenPosition by a non-whitelisted trader on a vAMM with a non-zero cap: engine State.open_interest_notional <= cap, |size| <= holding cap. For a whitelisted trader the same call is also run on a what-if twin with both caps set to 0: success there implies success here. After every step: the seven stored ratios <= D, maintenance <= initial, 60 <= TWAP interval <= 604800, every vAMM in GetAllVamm has the engine's decimals. Non-trivial: a trade ending within 10% of a cap or rejected for a cap or a whitelisted trade beyond a cap, or an accepted update at a bound / of two interdependent fields. Distinct by digest of (cfg, ops).",
+        rule: "histories interleaving engine UpdateConfig (single fields, initial+maintenance together, values 0 / 1 / D-1 / D / D+1 / 2D / relative to the other ratio +-1), vAMM UpdateConfig (toll, spread, fluctuation limit, caps around the current exposure, TWAP interval 0/59/60/604800/604801), whitelist edits, AddVamm/RemoveVamm of matching vAMMs and of a vAMM with different decimals, with trades by whitelisted and non-whitelisted traders. After every successful position-increasing OpenPosition by a non-whitelisted trader on a vAMM with a non-zero cap: engine State.open_interest_notional <= cap, |size| <= holding cap. For a whitelisted trader the same call is also run on a what-if twin with both caps set to 0: success there implies success here. After every step: the seven stored ratios <= D, maintenance <= initial, 60 <= TWAP interval <= 604800, every vAMM in GetAllVamm has the engine's decimals. Once per history, on a what-if copy: a second insurance fund is set up before its engine (naming the address the engine will get), the owner lists every market of the world there, the engine is then deployed at that address, and every vAMM that fund lists must have that engine's decimals. Non-trivial: a trade ending within 10% of a cap or rejected for a cap or a whitelisted trade beyond a cap, or an accepted update at a bound / of two interdependent fields. Distinct by digest of (cfg, ops).",
         assumptions: &[],
         eval_counter: None,
     }
